@@ -13,6 +13,8 @@ import (
 	"strings"
 	"time"
 
+	"github.com/quickfixgo/quickfix"
+
 	"verifharness/core"
 	"verifharness/fixwire"
 	"verifharness/lab"
@@ -183,6 +185,11 @@ func apply(l *lab.Lab, p *lab.Peer, sym string, k int) {
 		l.In("Heartbeat", p.Msg("0", sn.NextTarget, nil, nil))
 	case "testreq-in":
 		l.In("TestRequest", p.Msg("1", sn.NextTarget, nil, fixwire.Fields{lab.F(112, "T")}))
+	case "reset-api":
+		// the public ResetSession: logs the session out and resets the store. Not part of the random alphabet: the
+		// property quantifies over connects, inbound messages, sends, timer events, stop requests and disconnects,
+		// and ResetSession is known (diagnostic, DESIGN §11.1) to send a Logout while leaving the session logged on.
+		l.Step("ResetSession (registry API)", func() { _ = quickfix.ResetSession(l.SID) })
 	case "resendreq-in":
 		// (replays stay possible until the connection ends; nothing else may ride along with them)
 		l.In("ResendRequest", p.Msg("2", sn.NextTarget, nil, fixwire.Fields{lab.F(7, "1"), lab.F(16, "0")}))
